@@ -36,6 +36,7 @@ Definition d_rop (v : val) : rop :=
   | L [I 0; x] => SetMedia (dopt dnat x)
   | L [I 1; x] => SetText (dopt dnat x)
   | L [I 2; x] => SetData (dopt dnat x)
+  | L [I 4; x] => Mutate (dnat x)
   | _ => Render
   end.
 Definition v_body (b : option body) : val :=
@@ -44,14 +45,14 @@ Definition v_body (b : option body) : val :=
   | Some BNone => L [I 0]
   | Some (BText t) => L [I 1; vnat t]
   | Some (BData d) => L [I 2; vnat d]
-  | Some (BMedia m) => L [I 3; vnat m]
+  | Some (BMedia m v) => L [I 3; vnat m; vnat v]
   end.
 Definition d_body (v : val) : option body :=
   match v with
   | L [I 0] => Some BNone
   | L [I 1; t] => Some (BText (dnat t))
   | L [I 2; d] => Some (BData (dnat d))
-  | L [I 3; m] => Some (BMedia (dnat m))
+  | L [I 3; m; v] => Some (BMedia (dnat m) (dnat v))
   | _ => None
   end.
 Definition d_loads (v : val) : loads_res :=
